@@ -98,7 +98,7 @@ TreeField(R, G, objType, obj, fs, path) ==
   LET name == fs[1].name IN
   IF name = "__typename" THEN {Nd(path, TRUE, FALSE, "leaf", [t |-> "s", v |-> objType], <<>>)}      \* never goes through the field resolver
   ELSE LET fd == R.schema.types[objType].fields[name]
-           ca == CoerceArgs(fd.args, fs[1], R.vals, R.wd, <<>>)
+           ca == CoerceArgs(R.schema, fd.args, fs[1], R.vals, R.wd, <<>>)
        IN IF ~ca.ok THEN {Nd(path, IsNN(fd.type), FALSE, "raise", Null, <<>>)}                        \* no resolver call, hence no gate
           ELSE TreeVal(R, G, fd.type, fs, obj.f[name], path, ResGated(G, path), TRUE)
 
